@@ -1,5 +1,6 @@
 import Cherab.Drv.Proto
 import Cherab.Model.Admt
+import Cherab.Model.AdmtDense
 import Cherab.Gen.Admt
 open Cherab.Drv Cherab.Admt Cherab.Gen.Admt
 
@@ -40,6 +41,32 @@ def doOps (ts : List String) : String :=
             match rows[i]! with
             | (c, some t) => (List.range n).map fun j => opEntry cells dx dy c t op j
             | _ => []
+        "ok " ++ fFs ([dx, dy] ++ out.flatten.flatten)
+    | _ => "bad-op"
+  | _ => "bad-op"
+
+/-- `dense n (ix iy)*n nv (x y)*(n*nv)`: the same operators as `ops`, assembled the way the code does it — every
+assignment of the loop body stored into its column of the dense row of cell `i`, last write wins (`denseRun`) -/
+def doDense (ts : List String) : String :=
+  match ts with
+  | nS :: rest =>
+    let n := pN nS
+    let (cells, rest) := cellsOf n rest
+    match rest with
+    | nvS :: fl =>
+      let nv := pN nvS
+      let verts := (chunks (2 * nv) n (fl.map pF)).map pairs
+      match extractSteps (verts.map centre) with
+      | none => "ValueError"
+      | some (dx, dy) =>
+        let ds := ((List.range n).zip cells).map fun ic => denseRun program cells ic.2 ic.1
+        if ds.any (·.isNone) then "IndexError" else
+        let rows := ds.toArray
+        let out := Op5.all.map fun op =>
+          (List.range n).map fun i =>
+            match rows[i]! with
+            | some d => (List.range n).map fun j => (denseEntry dx dy d op j : Float)
+            | none => []
         "ok " ++ fFs ([dx, dy] ++ out.flatten.flatten)
     | _ => "bad-op"
   | _ => "bad-op"
@@ -103,6 +130,7 @@ def doAdmt (ts : List String) : String :=
 def step (ts : List String) : String :=
   match ts with
   | "ops" :: r => doOps r
+  | "dense" :: r => doDense r
   | "admt" :: r => doAdmt r
   | "rows" :: r => doRows r
   | ["coef", an, rr, a1, a2, a3, a4, a5, a6, a7, a8, a9] =>
